@@ -34,7 +34,7 @@ na = [dict(property_id=p["id"], reason=NOT_APPLICABLE.get(p["id"], "check not bu
       for p in props if p["id"] not in CHECKS]
 man = dict(
     version=1,
-    setup_cmd="python3 build.py libs mon && python3 build.py libs san",
+    setup_cmd="python3 build.py libs mon && python3 build.py libs san && python3 build.py libs rel",
     hooks=dict(
         guard="ADAPTAGRAMS_VERIF",
         enable="checks compile /repo/cola/lib*/*.cpp themselves (build.py) with -DADAPTAGRAMS_VERIF -DUSE_ASSERT_EXCEPTIONS; the autotools build never defines the guard",
